@@ -190,6 +190,7 @@ def run(run):
             jobs += [('ast', k, (c1, c2), 1, 1, dl, 10**7) for c1 in ['Identity', 'Field', 'Index', 'Literal'] for c2 in ['Identity', 'Field', 'Index', 'Literal']]
         elif quick or not child_slots(k): jobs.append(('ast', k, (), 1, 2, dl, 10**7))
         else: jobs += [('ast', k, (c1,), 1, 2, dl, 10**7) for c1 in SA.LEAF] + [('ast', k, (c1,), 2, 2, dl, 60000) for c1 in ['Identity', 'Field', 'Projection', 'Subexpr', 'Flatten', 'Or', 'MultiList']]
+    jobs += [('ast', 'Flatten', (), 1, 3, dl, 10**7), ('ast', 'ObjectValues', (), 1, 3, dl, 10**7)]
     nl = 5 if quick else len(PIPE_L)
     ls = [PIPE_L[(i + run.seed) % len(PIPE_L)] for i in range(nl)]; rs = [PIPE_R[(i * 5 + run.seed) % len(PIPE_R)] for i in range(nl)] if quick else PIPE_R
     jobs += [('pipe', l, r, 2 if ('==' not in l + r) else 1, dl) for l in ls for r in rs]
